@@ -467,9 +467,40 @@ def run(ctx, rep):
             f(ctx, rep)
         except Unsupported as u:
             rep.undecided(rule, f.__name__, f"line {getattr(u.node, 'lineno', 0)}", str(u))
+    rep.rule('C20.H', "the block-update operator reads the published precision matrix of the current state before it stores the proposed precision (and of the proposed state after)")
+    check_block_update_reads_before_it_writes(ctx, rep)
     # C20.O — the integrated coalescent and the sufficient statistics sort the events of every sample themselves (order-kind analysis of sa/orders.py)
     from sa import orders
     from sa.report import RuleProxy
     rep.rule('C20.O', "integrated coalescent / sufficient statistics: vectors in input order and in sorted order are kept apart, and every sample of a batch is sorted with its own permutation")
     orders.check_orders(ctx, RuleProxy(rep, 'C20.O', ''), 'C20.O', 'torchtree.evolution.coalescent', floor=3,
                         only=lambda cname, fn: 'Integrated' in cname or fn.name in ('sufficient_statistics', '_sorted_terms', 'maximum_likelihood'))
+
+
+def check_block_update_reads_before_it_writes(ctx, rep):
+    """C20.H — the block-update proposal needs the published precision matrix of BOTH states: the current one (backward move) and the proposed one (forward move).  The matrix of
+    the current state can only be read before `self.gmrf.precision.tensor = <proposal>`; a read after that store returns the proposed matrix again, and the backward proposal —
+    hence the Hastings ratio — is computed with the wrong Gaussian."""
+    from sa.cfg import CFG
+    cls = ctx.classes.find('torchtree.inference.mcmc.gmrf_block_updating.GMRFPiecewiseCoalescentBlockUpdatingOperator')
+    if cls is None:
+        rep.undecided('C20.H', 'block-update', '', 'operator class not found')
+        return
+    r = cls.resolve('_step')
+    fn = r[1]
+    cfg = CFG(fn)
+    stores = [n for n in cfg.stmt_nodes() if isinstance(n.stmt, ast.Assign) and any(ast.unparse(t).replace(' ', '') == 'self.gmrf.precision.tensor' for t in n.stmt.targets)]
+    reads = [n for n in cfg.stmt_nodes() if isinstance(n.stmt, ast.Assign) and isinstance(n.stmt.value, ast.Call) and ast.unparse(n.stmt.value.func).replace(' ', '') == 'self.gmrf.precision_matrix'
+             and len(n.stmt.targets) == 1 and isinstance(n.stmt.targets[0], ast.Name)]
+    key = 'GMRFPiecewiseCoalescentBlockUpdatingOperator._step::matrix-of-the-current-state-is-read-before-the-precision-is-replaced'
+    if len(stores) != 1 or not reads:
+        rep.undecided('C20.H', key, where(cls.module, fn), f"{len(stores)} stores of the precision and {len(reads)} reads of precision_matrix() found")
+        return
+    S = stores[0]
+    pre = [n.stmt.targets[0].id for n in reads if cfg.dominates(n, S)]
+    post = [n.stmt.targets[0].id for n in reads if cfg.dominates(S, n)]
+    used = {x.id for x in ast.walk(fn) if isinstance(x, ast.Name) and isinstance(x.ctx, ast.Load)}
+    ok = bool(pre) and bool(post) and all(v in used for v in pre + post) and not (set(pre) & set(post))
+    rep.check('C20.H', key, ok, where(cls.module, S.stmt), {'read_before_the_store': pre, 'read_after_the_store': post},
+              f"_step reads precision_matrix() into {pre or 'nothing'} before `self.gmrf.precision.tensor = …` and into {post or 'nothing'} after it: the backward proposal needs the matrix "
+              f"of the current precision, which no longer exists once the proposed precision has been stored — both matrices are then the proposed one and the Hastings ratio is wrong")
